@@ -74,7 +74,7 @@ class DiscreteHMMConfiguration(Pytree):
             self.linear_grid_dim,
             self.adjacency_distance_trans,
             self.sigma_trans if self.sigma_trans > 0.0 else -np.inf,
-            1 / self.sigma_trans if self.sigma_trans > 0.0 else -np.inf,
+            1 / self.sigma_trans if self.sigma_trans > 0.0 else np.inf,
         )
 
     def observation_tensor(self):
